@@ -223,13 +223,38 @@ func (c *Ctx) callFunction(fr *frame, st *State, fn *ssa.Function, bindings []*V
 		return nil
 	}
 	fc := c.W.contracts[name]
-	if fc != nil && (fc.hasSpec() || fc.Trusted) && !fc.Inline && !c.W.inlineAll {
+	forceInline := false
+	if fr != nil && fr.fc != nil {
+		short := shortName(name)
+		for _, a := range fr.fc.InlineCallees {
+			if a == fn.Name() || a == short || strings.HasSuffix(short, "."+a) {
+				forceInline = true
+			}
+		}
+		// an inlined callee's own callees are inlined the same way
+		if c.inlineDepth > 0 {
+			for _, a := range c.inlineList {
+				if a == fn.Name() || a == short || strings.HasSuffix(short, "."+a) {
+					forceInline = true
+				}
+			}
+		}
+	}
+	if fc != nil && (fc.hasSpec() || fc.Trusted) && !fc.Inline && !c.W.inlineAll && !forceInline {
 		if fc.Trusted {
 			c.abstracted("trusted contract " + shortName(name))
 		}
 		return c.applyContract(st, fc, fn, args, pos)
 	}
 	if c.canInline(fn) {
+		if forceInline && fr != nil && fr.fc != nil && len(fr.fc.InlineCallees) > 0 {
+			c.inlineList = fr.fc.InlineCallees
+			c.inlineDepth++
+			defer func() { c.inlineDepth-- }()
+		} else if forceInline {
+			c.inlineDepth++
+			defer func() { c.inlineDepth-- }()
+		}
 		if fc != nil {
 			// listed function: its own obligations are checked where it is
 			// verified; here only its preconditions, then the body quietly.
@@ -905,7 +930,12 @@ func (c *Ctx) checkCallSite(fr *frame, st *State, callee *ssa.Function, args []*
 		}
 		for i, p := range callee.Params {
 			if i < len(args) && p.Name() != "" && p.Name() != "_" {
-				env.vars[p.Name()] = args[i]
+				// the caller's own variables take precedence over the callee's
+				// parameter names (use argN for the arguments in that case)
+				_, isParam := fr.entryVars[p.Name()]
+				if !isParam && env.lookup(p.Name()) == nil {
+					env.vars[p.Name()] = args[i]
+				}
 			}
 			if i < len(args) {
 				env.vars[fmt.Sprintf("arg%d", i)] = args[i]
